@@ -287,6 +287,8 @@ def udf_fid_churn(cfg, rng):
     if rng.random() < 0.5:
         rm(rng.randrange(12, 30))
         add(rng.randrange(14, 34))
+    if rng.random() < 0.5:
+        rm(max(0, len(live) - rng.randrange(5, 30)))      # end in the shrunk state: one block again
     return ops, sizes
 
 
